@@ -218,6 +218,14 @@ class BoundTemplate:
             return True
 
         uptodate = self.uptodate()
+        if isinstance(uptodate, Awaitable):
+            # The template was loaded asynchronously and its `uptodate` can't be
+            # awaited here. Report it as modified so the caller reloads it.
+            close = getattr(uptodate, "close", None)
+            if close:
+                close()
+            return False
+
         if not isinstance(uptodate, bool):
             raise LiquidError(
                 f"expected a boolean from uptodate, found {type(uptodate).__name__}",
